@@ -193,6 +193,260 @@ theorem attr_ref (env : Env F) (strict : Bool) (a : AttrD) (tg : String) (hty : 
   have hcri := cri_seps env.lex hcfg seps hs (ds.reverse ++ 35 :: l) rest d false sk Sev.null hd
   simp [hne2, IStream.failed, hcri, hfound]
 
+/-- `ReadInteger` on a token of the grammar (fits `long`) followed by any layout and a delimiter -/
+theorem readInteger_tok (lex : LexCfg) (hcfg : lex.criSkipsComments = true) (tok : List Byte) (htok : isInteger tok = true)
+    (hlo : longMin ≤ denoteInteger tok) (hhi : denoteInteger tok ≤ longMax)
+    (l : List Byte) (sk : Bool) (seps : List Byte) (hs : Seps seps) (d : Byte) (rest : List Byte) (hd : d = 44 ∨ d = 41) :
+    readInteger lex (some attrDelims) (G l (tok ++ (seps ++ d :: rest)) sk) .null =
+      (some (denoteInteger tok), G (seps.reverse ++ (tok.reverse ++ l)) (d :: rest) sk, .null) := by
+  have hnd := seps_head_not_digit seps hs d rest hd
+  have hscan := scanInt_token longMin longMax l tok (seps ++ d :: rest) htok (Or.inr hnd)
+  obtain ⟨c, u, rfl, hcs, _, _, _⟩ := isInteger_head tok htok
+  simp only [List.cons_append] at hscan ⊢
+  simp only [readInteger]
+  rw [show (G l (c :: (u ++ (seps ++ d :: rest))) sk).ws = G l (c :: (u ++ (seps ++ d :: rest))) sk from ws_good0 l c _ sk hcs]
+  rw [extractLong_G l c _ sk hcs, hscan]
+  have h1 : ¬ denoteInteger (c :: u) < longMin := by omega
+  have h2 : ¬ denoteInteger (c :: u) > longMax := by omega
+  have hne : (seps ++ d :: rest).isEmpty = false := by
+    obtain ⟨x, y, hxy, _⟩ := hnd
+    rw [hxy]; rfl
+  have hcri := cri_seps lex hcfg seps hs ((c :: u).reverse ++ l) rest d false sk Sev.null hd
+  simp only [List.reverse_cons, List.append_assoc, List.singleton_append] at hcri
+  simp [h1, h2, hne, IStream.failed, Sev.warnIf, hcri]
+
+/-! ### aggregates of INTEGER -/
+
+/-- one element of an aggregate as it stands in a file -/
+structure ElemP where
+  tok : List Byte
+  before : List Byte
+  after : List Byte
+
+def ElemOK (e : ElemP) : Prop :=
+  isInteger e.tok = true ∧ longMin ≤ denoteInteger e.tok ∧ denoteInteger e.tok < longMax ∧ Seps e.before ∧ Seps e.after
+
+/-- the element list after the opening parenthesis, closing parenthesis included -/
+def renderElems : List ElemP → List Byte
+  | [] => []
+  | [e] => e.before ++ (e.tok ++ (e.after ++ [41]))
+  | e :: f :: es => e.before ++ (e.tok ++ (e.after ++ 44 :: renderElems (f :: es)))
+
+def elemVal (e : ElemP) : Elem F := .atom (.int (denoteInteger e.tok))
+
+theorem isInteger_head47 (t : List Byte) (h : isInteger t = true) : ∃ c u, t = c :: u ∧ isSpace c = false ∧ c ≠ 47 ∧ c ≠ 41 := by
+  obtain ⟨c, u, hcu, hcs, _, _, h41⟩ := isInteger_head t h
+  refine ⟨c, u, hcu, hcs, ?_, h41⟩
+  intro h47; subst h47
+  rw [hcu] at h
+  revert h
+  simp [isInteger, splitSign, allDigits, isDigit]
+
+theorem elemRead_int (env : Env F) (hcfg : env.lex.criSkipsComments = true) (hagg : env.cfg.aggrSkipsComments = true)
+    (e : ElemP) (he : ElemOK e) (l : List Byte) (sk : Bool) (d : Byte) (rest : List Byte) (hd : d = 44 ∨ d = 41) :
+    elemRead env .integer (G l (e.before ++ (e.tok ++ (e.after ++ d :: rest))) sk) =
+      .ok (.null, elemVal e, G (e.after.reverse ++ (e.tok.reverse ++ (e.before.reverse ++ l))) (d :: rest) sk) := by
+  obtain ⟨htok, hlo, hhi, hb, ha⟩ := he
+  obtain ⟨c, u, hcu, hcs, h47, _⟩ := isInteger_head47 e.tok htok
+  unfold elemRead
+  simp only [hagg, if_true, bind, Except.bind, pure, Except.pure]
+  have e1 : e.before ++ (e.tok ++ (e.after ++ d :: rest)) = e.before ++ c :: (u ++ (e.after ++ d :: rest)) := by rw [hcu]; simp
+  rw [e1, readTokenSeparator_seps e.before hb l c _ sk hcs h47]
+  have e2 : c :: (u ++ (e.after ++ d :: rest)) = e.tok ++ (e.after ++ d :: rest) := by rw [hcu]; simp
+  rw [e2, scalarNodeRead_integer]
+  rw [readInteger_tok env.lex hcfg e.tok htok hlo (by omega) (e.before.reverse ++ l) sk e.after ha d rest hd]
+  have h3 : (denoteInteger e.tok == longMax) = false := by simp; omega
+  have hcri := cri_seps env.lex hcfg [] (Seps.blanks [] (by simp)) (e.after.reverse ++ (e.tok.reverse ++ (e.before.reverse ++ l))) rest d false sk Sev.null hd
+  simp only [List.nil_append, List.reverse_nil] at hcri
+  simp [intValue, h3, valueToAtom, elemVal, hcri]
+
+theorem aggrLoop_done (env : Env F) (n : Nat) (err : Sev) (acc : List (Elem F)) (s : IStream) :
+    aggrLoop env .integer (n + 1) err acc 41 s = .ok (err, some acc, s) := by
+  unfold aggrLoop
+  simp [pure, Except.pure]
+
+theorem G_good (l r : List Byte) (sk : Bool) : (G l r sk).good = true := rfl
+
+theorem aggrLoop_ints (env : Env F) (hcfg : env.lex.criSkipsComments = true) (hagg : env.cfg.aggrSkipsComments = true)
+    (es : List ElemP) (hne : es ≠ []) (hok : ∀ e ∈ es, ElemOK e) :
+    ∀ (fuel : Nat) (acc : List (Elem F)) (c : Byte) (l : List Byte) (sk : Bool) (rest : List Byte),
+      es.length + 1 ≤ fuel → c ≠ 41 →
+      aggrLoop env .integer fuel .null acc c (G l (renderElems es ++ rest) sk) =
+        .ok (.null, some (acc ++ es.map elemVal), G ((renderElems es).reverse ++ l) rest sk) := by
+  induction es with
+  | nil => exact absurd rfl hne
+  | cons e fs ih =>
+    intro fuel acc c l sk rest hf hc
+    have he := hok e (by simp)
+    have hc' : (c != 41) = true := by simpa using hc
+    cases fuel with
+    | zero => omega
+    | succ n =>
+      cases fs with
+      | nil =>
+        cases n with
+        | zero => simp at hf
+        | succ m =>
+          unfold aggrLoop
+          simp only [G_good, hc', Bool.and_self, if_true, bind, Except.bind, pure, Except.pure, renderElems]
+          have e1 : e.before ++ (e.tok ++ (e.after ++ [41])) ++ rest = e.before ++ (e.tok ++ (e.after ++ 41 :: rest)) := by simp
+          rw [e1, elemRead_int env hcfg hagg e he l sk 41 rest (Or.inr rfl)]
+          simp only
+          rw [show (G (e.after.reverse ++ (e.tok.reverse ++ (e.before.reverse ++ l))) (41 :: rest) sk).ws =
+            G (e.after.reverse ++ (e.tok.reverse ++ (e.before.reverse ++ l))) (41 :: rest) sk from ws_good0 _ 41 rest sk (by decide)]
+          rw [show getInto c (G (e.after.reverse ++ (e.tok.reverse ++ (e.before.reverse ++ l))) (41 :: rest) sk) =
+            (41, G (41 :: (e.after.reverse ++ (e.tok.reverse ++ (e.before.reverse ++ l)))) rest sk) from getInto_good c _ 41 rest sk]
+          have hx : (Sev.null.toInt < Sev.incomplete.toInt) = False := by decide
+          simp only [hx, if_false, bne_self_eq_false, Bool.and_false, Bool.false_and, Bool.false_eq_true]
+          rw [aggrLoop_done]
+          simp
+      | cons f gs =>
+        have hlen : (f :: gs).length + 1 ≤ n := by simp only [List.length_cons] at hf ⊢; omega
+        unfold aggrLoop
+        simp only [G_good, hc', Bool.and_self, if_true, bind, Except.bind, pure, Except.pure, renderElems]
+        have e1 : e.before ++ (e.tok ++ (e.after ++ 44 :: renderElems (f :: gs))) ++ rest =
+            e.before ++ (e.tok ++ (e.after ++ 44 :: (renderElems (f :: gs) ++ rest))) := by simp
+        rw [e1, elemRead_int env hcfg hagg e he l sk 44 _ (Or.inl rfl)]
+        simp only
+        rw [show (G (e.after.reverse ++ (e.tok.reverse ++ (e.before.reverse ++ l))) (44 :: (renderElems (f :: gs) ++ rest)) sk).ws =
+          G (e.after.reverse ++ (e.tok.reverse ++ (e.before.reverse ++ l))) (44 :: (renderElems (f :: gs) ++ rest)) sk
+          from ws_good0 _ 44 _ sk (by decide)]
+        rw [show getInto c (G (e.after.reverse ++ (e.tok.reverse ++ (e.before.reverse ++ l))) (44 :: (renderElems (f :: gs) ++ rest)) sk) =
+          (44, G (44 :: (e.after.reverse ++ (e.tok.reverse ++ (e.before.reverse ++ l)))) (renderElems (f :: gs) ++ rest) sk)
+          from getInto_good c _ 44 _ sk]
+        have hx : (Sev.null.toInt < Sev.incomplete.toInt) = False := by decide
+        have h44 : ((44 : Byte) != 44) = false := by decide
+        simp only [hx, if_false, h44, Bool.false_and, Bool.false_eq_true]
+        rw [ih (by simp) (fun x hx => hok x (by simp [hx])) n (acc ++ [elemVal e]) 44 _ sk rest hlen (by decide)]
+        simp
+
+theorem renderElems_cons (e : ElemP) (fs : List ElemP) :
+    renderElems (e :: fs) = e.before ++ renderElems ({ e with before := [] } :: fs) := by
+  cases fs <;> simp [renderElems]
+
+theorem renderElems_length (es : List ElemP) (hok : ∀ e ∈ es, ElemOK e) : es.length ≤ (renderElems es).length := by
+  induction es with
+  | nil => simp
+  | cons e fs ih =>
+    have htok : 1 ≤ e.tok.length := by
+      obtain ⟨c, u, hcu, _⟩ := isInteger_head e.tok (hok e (by simp)).1
+      rw [hcu]; simp
+    have := ih (fun x hx => hok x (by simp [hx]))
+    cases fs with
+    | nil => simp only [renderElems, List.length_append, List.length_cons, List.length_nil]; omega
+    | cons f gs => simp only [renderElems, List.length_append, List.length_cons] at this ⊢; omega
+
+/-- `STEPaggregate::ReadValue` on `( e₁ , … , eₙ )`, n ≥ 1, INTEGER elements, any layout around every element -/
+theorem aggrRead_ints (env : Env F) (hcfg : env.lex.criSkipsComments = true) (hagg : env.cfg.aggrSkipsComments = true)
+    (es : List ElemP) (hne : es ≠ []) (hok : ∀ e ∈ es, ElemOK e) (l : List Byte) (sk : Bool) (rest : List Byte) :
+    aggrRead env .integer (G l (40 :: (renderElems es ++ rest)) sk) =
+      .ok (.null, some (es.map elemVal), G ((40 :: renderElems es).reverse ++ l) rest sk) := by
+  cases es with
+  | nil => exact absurd rfl hne
+  | cons e fs =>
+    obtain ⟨htok, hlo, hhi, hb, ha⟩ := hok e (by simp)
+    obtain ⟨c0, u0, hcu, hcs, h47, h41⟩ := isInteger_head47 e.tok htok
+    let e' : ElemP := { e with before := [] }
+    have hok' : ∀ x ∈ e' :: fs, ElemOK x := by
+      intro x hx
+      rcases List.mem_cons.mp hx with rfl | hx
+      · exact ⟨htok, hlo, hhi, Seps.blanks [] (by simp), ha⟩
+      · exact hok x (by simp [hx])
+    have hhead : ∃ u1, renderElems (e' :: fs) ++ rest = c0 :: u1 := by
+      cases fs with
+      | nil => exact ⟨u0 ++ (e.after ++ 41 :: rest), by simp [renderElems, e', hcu]⟩
+      | cons f gs => exact ⟨u0 ++ (e.after ++ 44 :: (renderElems (f :: gs) ++ rest)), by simp [renderElems, e', hcu]⟩
+    obtain ⟨u1, h1⟩ := hhead
+    unfold aggrRead
+    rw [show (G l (40 :: (renderElems (e :: fs) ++ rest)) sk).ws = G l (40 :: (renderElems (e :: fs) ++ rest)) sk
+      from ws_good0 l 40 _ sk (by decide)]
+    simp only [bind, Except.bind, pure, Except.pure]
+    rw [show (G l (40 :: (renderElems (e :: fs) ++ rest)) sk).peekC = (40, G l (40 :: (renderElems (e :: fs) ++ rest)) sk)
+      from peekC_good l 40 _ sk]
+    have x1 : ((40 : Byte) == 36) = false := by decide
+    have x2 : ((40 : Byte) != 40) = false := by decide
+    simp only [x1, Bool.or_false, x2, Bool.false_eq_true, if_false]
+    rw [show getInto 40 (G l (40 :: (renderElems (e :: fs) ++ rest)) sk) = (40, G (40 :: l) (renderElems (e :: fs) ++ rest) sk)
+      from getInto_good 40 l 40 _ sk]
+    simp only [hagg, if_true]
+    have e1 : renderElems (e :: fs) ++ rest = e.before ++ c0 :: u1 := by
+      rw [renderElems_cons, List.append_assoc, h1]
+    rw [e1, readTokenSeparator_seps e.before hb (40 :: l) c0 u1 sk hcs h47]
+    rw [show (G (e.before.reverse ++ 40 :: l) (c0 :: u1) sk).peekC = (c0, G (e.before.reverse ++ 40 :: l) (c0 :: u1) sk)
+      from peekC_good _ c0 u1 sk]
+    have x3 : (c0 == 41) = false := by simpa using h41
+    simp only [x3, Bool.false_eq_true, if_false]
+    rw [← h1]
+    have hlen := renderElems_length (e' :: fs) hok'
+    rw [aggrLoop_ints env hcfg hagg (e' :: fs) (by simp) hok' _ [] c0 (e.before.reverse ++ 40 :: l) sk rest
+      (by simp only [List.length_append] at hlen ⊢; omega) h41]
+    simp [renderElems_cons e fs, e']
+    rfl
+
+/-- `STEPaggregate::ReadValue` on the empty aggregate `( seps )` -/
+theorem aggrRead_empty (env : Env F) (hagg : env.cfg.aggrSkipsComments = true)
+    (seps : List Byte) (hs : Seps seps) (l : List Byte) (sk : Bool) (rest : List Byte) :
+    aggrRead env .integer (G l (40 :: (seps ++ 41 :: rest)) sk) =
+      .ok (.null, some [], G (41 :: (seps.reverse ++ 40 :: l)) rest sk) := by
+  unfold aggrRead
+  rw [show (G l (40 :: (seps ++ 41 :: rest)) sk).ws = G l (40 :: (seps ++ 41 :: rest)) sk from ws_good0 l 40 _ sk (by decide)]
+  simp only [bind, Except.bind, pure, Except.pure]
+  rw [show (G l (40 :: (seps ++ 41 :: rest)) sk).peekC = (40, G l (40 :: (seps ++ 41 :: rest)) sk) from peekC_good l 40 _ sk]
+  have x1 : ((40 : Byte) == 36) = false := by decide
+  have x2 : ((40 : Byte) != 40) = false := by decide
+  have heof : (G l (40 :: (seps ++ 41 :: rest)) sk).eof = false := rfl
+  simp only [x1, Bool.or_false, x2, Bool.false_eq_true, if_false, heof]
+  rw [show getInto 40 (G l (40 :: (seps ++ 41 :: rest)) sk) = (40, G (40 :: l) (seps ++ 41 :: rest) sk) from getInto_good 40 l 40 _ sk]
+  simp only [hagg, if_true]
+  rw [readTokenSeparator_seps seps hs (40 :: l) 41 rest sk (by decide) (by decide)]
+  rw [show (G (seps.reverse ++ 40 :: l) (41 :: rest) sk).peekC = (41, G (seps.reverse ++ 40 :: l) (41 :: rest) sk) from peekC_good _ 41 rest sk]
+  simp only [beq_self_eq_true, if_true]
+  rw [show getInto 41 (G (seps.reverse ++ 40 :: l) (41 :: rest) sk) = (41, G (41 :: (seps.reverse ++ 40 :: l)) rest sk)
+    from getInto_good 41 _ 41 rest sk]
+  simp only
+  rw [show (G (41 :: (seps.reverse ++ 40 :: l)) rest sk).right.length + 2 = (rest.length + 1) + 1 from rfl, aggrLoop_done]
+
+/-- the text of an aggregate of INTEGER: `( e₁ , … , eₙ )` or `( seps )` -/
+def aggrText (es : List ElemP) (inner : List Byte) : List Byte :=
+  match es with
+  | [] => 40 :: (inner ++ [41])
+  | _ => 40 :: renderElems es
+
+/-- an aggregate-of-INTEGER attribute: every element read to its value, any layout inside and after -/
+theorem attr_aggr_int (env : Env F) (strict : Bool) (a : AttrD) (hty : a.ty = .aggr .integer) (hder : a.derived = false)
+    (hcfg : env.lex.criSkipsComments = true) (hagg : env.cfg.aggrSkipsComments = true)
+    (es : List ElemP) (inner : List Byte) (hok : ∀ e ∈ es, ElemOK e) (hin : Seps inner)
+    (l : List Byte) (sk : Bool) (seps : List Byte) (hs : Seps seps) (d : Byte) (rest : List Byte) (hd : d = 44 ∨ d = 41) :
+    attrSTEPread env strict a (G l (aggrText es inner ++ (seps ++ d :: rest)) sk) =
+      .ok (.null, .aggr (es.map elemVal), G (seps.reverse ++ ((aggrText es inner).reverse ++ l)) (d :: rest) sk) := by
+  have hread : aggrRead env .integer (G l (aggrText es inner ++ (seps ++ d :: rest)) sk) =
+      .ok (.null, some (es.map elemVal), G ((aggrText es inner).reverse ++ l) (seps ++ d :: rest) sk) := by
+    cases es with
+    | nil =>
+      have := aggrRead_empty env hagg inner hin l sk (seps ++ d :: rest)
+      simp only [aggrText, List.cons_append, List.append_assoc, List.singleton_append, List.nil_append] at this ⊢
+      rw [this]
+      simp
+    | cons e fs =>
+      have := aggrRead_ints env hcfg hagg (e :: fs) (by simp) hok l sk (seps ++ d :: rest)
+      simp only [aggrText, List.cons_append] at this ⊢
+      rw [this]
+  have hhead : ∃ u, aggrText es inner ++ (seps ++ d :: rest) = 40 :: u := by
+    cases es <;> exact ⟨_, rfl⟩
+  obtain ⟨u, hu⟩ := hhead
+  unfold attrSTEPread
+  rw [hu, show (G l (40 :: u) sk).ws = G l (40 :: u) sk from ws_good0 l 40 u sk (by decide)]
+  simp only [bind, Except.bind, pure, Except.pure]
+  rw [show (G l (40 :: u) sk).peekC = (40, G l (40 :: u) sk) from peekC_good l 40 u sk]
+  have e36 : ((40 : Byte) == 36) = false := by decide
+  have e44 : ((40 : Byte) == 44) = false := by decide
+  have e41 : ((40 : Byte) == 41) = false := by decide
+  simp only [hder, Bool.false_eq_true, if_false, e36, e44, e41, Bool.or_self, hty]
+  rw [← hu, hread]
+  have hx : (Sev.null.toInt < Sev.warning.toInt) = False := by decide
+  simp only [hx, if_false]
+  rw [cri_seps env.lex hcfg seps hs _ rest d false sk .null hd]
+
 /-! ### composition over a parameter list -/
 
 /-- one parameter as it stands in a file: attribute, stored value, token, layout before and after the token -/
@@ -353,5 +607,14 @@ theorem ParamOK.ref (env : Env F) (strict : Bool) (hcfg : env.lex.criSkipsCommen
     ⟨sk, by
       have := attr_ref env strict a tg hty hder hcfg ds hne hds hhi hfound l sk after ha d rest hd
       simpa using this⟩⟩
+
+theorem ParamOK.aggrInt (env : Env F) (strict : Bool) (hcfg : env.lex.criSkipsComments = true)
+    (hagg : env.cfg.aggrSkipsComments = true) (a : AttrD)
+    (hty : a.ty = .aggr .integer) (hder : a.derived = false) (hred : a.redefining = false)
+    (es : List ElemP) (inner : List Byte) (hok : ∀ e ∈ es, ElemOK e) (hin : Seps inner)
+    (before after : List Byte) (hb : Seps before) (ha : Seps after) :
+    ParamOK env strict { a := a, v := .aggr (es.map elemVal), tok := aggrText es inner, before := before, after := after } :=
+  ⟨hred, ⟨40, (aggrText es inner).tail, by cases es <;> rfl, by decide, by decide⟩, hb, fun l sk d rest hd =>
+    ⟨sk, attr_aggr_int env strict a hty hder hcfg hagg es inner hok hin l sk after ha d rest hd⟩⟩
 
 end StepModel.P21.RLemmas
